@@ -12,7 +12,7 @@ _is_action_value_list: a list-valued option is one with nargs '*', '+' or a non-
 """
 import z3
 
-from pyvc.engine import ExcVal, PyRaise, Rec
+from pyvc.engine import ClassRef, ExcVal, PyRaise, Rec
 from pyvc.units import Setup, Unit
 
 VAL_KINDS = ["spec", "spec-with-init_args", "spec-refused", "list", "dict", "scalar", "none"]
@@ -242,3 +242,149 @@ def add_subclasses_unit(prop):
 
 
 UNITS.append(add_subclasses_unit("C14"))
+
+
+# ------------------------------------------------------------------------------------- ActionTypeHint.instantiate_classes
+def aic_setup(ctx):
+    shape = ["single", "list-valued(nargs='+')"][ctx.choose(2, "option")]
+    has_sak = ctx.choose(2, "action-has-sub_add_kwargs") == 1
+    vals = [Rec("spec0"), Rec("spec1")]
+    sak = Rec("sub_add_kwargs")
+    attrs = {"_typehint": Rec("typehint"), "default": Rec("default"), "logger": Rec("logger"), "nargs": "+" if shape != "single" else None}
+    if has_sak:
+        attrs["sub_add_kwargs"] = sak
+    self = Rec("ActionTypeHint", attrs=attrs)
+    value = list(vals) if shape != "single" else vals[0]
+    calls = {"_is_action_value_list": lambda c, a, k: a[0].attrs["nargs"] == "+",
+             "adapt_typehints": lambda c, a, k: (c.event("adapt", list(a), dict(k)), ("instance-of", a[0]))[1]}
+    return Setup(env={"self": self, "value": value}, calls=calls, data=dict(shape=shape, has_sak=has_sak, vals=vals, sak=sak, self_=self, value=value))
+
+
+def aic_post(ctx, st, result):
+    d = st.data
+    tag = f"[{d['shape']},sub_add_kwargs={'own' if d['has_sak'] else 'none'}]"
+    ev = [e for e in ctx.events if e[0] == "adapt"]
+    want_vals = d["vals"] if d["shape"] != "single" else d["vals"][:1]
+    ok = len(ev) == len(want_vals)
+    for e, v in zip(ev, want_vals):
+        a, k = e[1], e[2]
+        ok = ok and len(a) == 2 and a[0] is v and a[1] is d["self_"].attrs["_typehint"] and set(k) == {"default", "instantiate_classes", "sub_add_kwargs", "logger"} and k["default"] is d["self_"].attrs["default"] \
+            and k["instantiate_classes"] is True and k["logger"] is d["self_"].attrs["logger"] and (k["sub_add_kwargs"] is d["sak"] if d["has_sak"] else k["sub_add_kwargs"] == {})
+    ctx.oblige("post", "every-value-of-the-option-is-instantiated-by-adapt_typehints-with-the-option's-type,default,own-sub_add_kwargs-and-logger(instantiate_classes=True),once,in-order" + tag, ok)
+    if d["shape"] == "single":
+        ctx.oblige("post", "a-single-valued-option-returns-the-instance-itself" + tag, result == ("instance-of", d["vals"][0]))
+    else:
+        ctx.oblige("post", "a-list-valued-option-returns-the-instances-in-order" + tag, isinstance(result, list) and result == [("instance-of", v) for v in d["vals"]])
+
+
+def typehint_instantiate_unit(prop):
+    return Unit(prop, "jsonargparse._typehints:ActionTypeHint.instantiate_classes", aic_setup, aic_post, None, expect_cover=("return",),
+                trusted=["adapt_typehints(instantiate_classes=True): the instantiate-side obligations of adapt_class_type (its own unit)", "_is_action_value_list: its own unit"])
+
+
+# ------------------------------------------------------------------------------------- ActionTypeHint.normalize_default
+ND = ["lazy-instance", "dataclass-instance", "spec-dict", "plain-dict", "enum-member", "function", "class", "instance-of-a-subclass", "instance-of-an-unrelated-class", "unknown-default-marker", "scalar", "None"]
+NH = ["subclass-type", "enum-type", "callable-type", "callable-returning-a-class", "other"]
+
+
+def nd_setup(ctx):
+    hk = NH[ctx.choose(len(NH), "typehint")]
+    dk = ND[ctx.choose(len(ND), "default")]
+    allow = ctx.choose(2, "allow_default_instance") == 1
+    for n in ("LazyInitBaseClass", "Enum", "Namespace", "UnknownDefault"):
+        ctx.classes.add(n, [])
+    ctx.classes.add("LazySub", ["LazyInitBaseClass"])
+    ctx.classes.add("Color", ["Enum"])
+    hint = Rec("typehint", attrs={"kind": hk})
+    meta = Rec("class-of-default", attrs={"kind": dk})
+    ns = Rec("Namespace(spec)", attrs={"class_path": "Sub"})
+    ns.methods["__setattr__"] = lambda c, s_, a, k: s_.attrs.__setitem__(a[0], a[1])
+    lazy_data = Rec("lazy init data")
+    dc_dict = Rec("dict of the dataclass")
+    if dk == "lazy-instance":
+        default = Rec("LazySub", attrs={"__class__": meta}, methods={"lazy_get_init_data": lambda c, s_, a, k: lazy_data})
+    elif dk == "spec-dict":
+        default = {"class_path": "Sub", "init_args": {"x": 1}}
+    elif dk == "plain-dict":
+        default = {"x": 1}
+    elif dk == "enum-member":
+        default = Rec("Color", attrs={"__class__": meta, "name": "RED"})
+    elif dk == "scalar":
+        default = 7
+    elif dk == "None":
+        default = None
+    else:
+        default = Rec({"dataclass-instance": "DC", "function": "function", "class": "type", "instance-of-a-subclass": "Sub", "instance-of-an-unrelated-class": "Other", "unknown-default-marker": "UnknownDefault"}[dk], attrs={"__class__": meta, "kind": dk})
+    self = Rec("ActionTypeHint", attrs={"_typehint": hint})
+
+    def is_subclass_typehint(c, s_, a, k):
+        if a[0] is hint:
+            return hk == "subclass-type" and k.get("all_subtypes") is False
+        return isinstance(a[0], Rec) and a[0].attrs.get("kind") == "instance-of-a-subclass"  # asked about type(default)
+    self.methods["is_subclass_typehint"] = is_subclass_typehint
+    calls = {"is_dataclass_like": lambda c, a, k: isinstance(a[0], Rec) and a[0].attrs.get("kind") == "dataclass-instance", "dataclass_to_dict": lambda c, a, k: dc_dict,
+             "subclass_spec_as_namespace": lambda c, a, k: (c.event("as-namespace", a[0]), ns)[1], "normalize_import_path": lambda c, a, k: ("normalised", a[0], a[1]),
+             "is_enum_type": lambda c, a, k: a[0].attrs["kind"] == "enum-type", "is_callable_type": lambda c, a, k: a[0].attrs["kind"] in ("callable-type", "callable-returning-a-class"),
+             "callable": lambda c, a, k: isinstance(a[0], Rec) and a[0].attrs.get("kind") in ("function", "class"), "inspect.isclass": lambda c, a, k: isinstance(a[0], Rec) and a[0].attrs.get("kind") == "class",
+             "get_import_path": lambda c, a, k: ("import-path-of", a[0]), "allow_default_instance.get": lambda c, a, k: allow,
+             "type": lambda c, a, k: a[0].attrs["__class__"] if isinstance(a[0], Rec) else Rec("builtin-class", attrs={"kind": "builtin"}),
+             "is_subclass": lambda c, a, k: isinstance(a[0], Rec) and a[0].attrs.get("kind") == "unknown-default-marker",
+             "ActionTypeHint.is_return_subclass_typehint": lambda c, a, k: a[0].attrs["kind"] == "callable-returning-a-class"}
+    consts = {"LazyInitBaseClass": ClassRef("LazyInitBaseClass"), "Enum": ClassRef("Enum")}
+    return Setup(env={"self": self, "default": default}, calls=calls, consts=consts,
+                 data=dict(hk=hk, dk=dk, allow=allow, default=default, hint=hint, ns=ns, lazy_data=lazy_data, dc_dict=dc_dict))
+
+
+def nd_expected(d):
+    hk, dk = d["hk"], d["dk"]
+    if dk == "lazy-instance":
+        return "lazy"
+    if dk == "dataclass-instance":
+        return "dc"
+    if hk == "subclass-type" and dk == "spec-dict":
+        return "spec"
+    if hk == "enum-type" and dk == "enum-member":
+        return "enum-name"
+    if hk in ("callable-type", "callable-returning-a-class") and dk == "function":
+        return "import-path"
+    if hk == "subclass-type" and not d["allow"]:
+        return "refuse" if dk == "instance-of-a-subclass" else "same"
+    if hk == "callable-returning-a-class" and dk == "class":
+        return "class-spec"
+    return "same"
+
+
+def nd_post(ctx, st, result):
+    d = st.data
+    tag = f"[{d['hk']}<-{d['dk']},allow_default_instance={d['allow']}]"
+    want = nd_expected(d)
+    ctx.oblige("post", "an-instance-of-a-subclass-is-no-default-for-a-subclass-type(unless instances are allowed)" + tag, want != "refuse")
+    if want == "lazy":
+        ctx.oblige("post", "a-lazy-instance-is-stored-as-its-init-data" + tag, result is d["lazy_data"])
+    elif want == "dc":
+        ctx.oblige("post", "a-dataclass-instance-is-stored-as-the-dict-of-its-fields" + tag, result is d["dc_dict"])
+    elif want == "spec":
+        ctx.oblige("post", "a-class-spec-for-a-subclass-type-is-stored-as-a-namespace-with-the-class_path-normalised-against-the-type" + tag,
+                   result is d["ns"] and d["ns"].attrs["class_path"] == ("normalised", "Sub", d["hint"]))
+    elif want == "enum-name":
+        ctx.oblige("post", "an-Enum-member-for-an-Enum-type-is-stored-by-its-name" + tag, result == "RED")
+    elif want == "import-path":
+        ctx.oblige("post", "a-function-for-a-callable-type-is-stored-by-its-import-path" + tag, result == ("import-path-of", d["default"]))
+    elif want == "class-spec":
+        ctx.oblige("post", "a-class-for-a-callable-returning-a-class-is-stored-as-a-spec-of-that-class" + tag, result == {"class_path": ("import-path-of", d["default"])})
+    elif want == "same":
+        ctx.oblige("post", "any-other-default-is-stored-as-given" + tag, result is d["default"] or (not isinstance(d["default"], (Rec, dict)) and result == d["default"]))
+
+
+def nd_raises(ctx, st, exc):
+    d = st.data
+    ctx.oblige("raises", f"refused=>ValueError,exactly-for-an-instance-of-a-subclass-given-to-a-subclass-type-when-instances-are-not-allowed[{d['hk']}<-{d['dk']}]", exc.cls == "ValueError" and nd_expected(d) == "refuse")
+
+
+def normalize_default_unit(prop):
+    return Unit(prop, "jsonargparse._typehints:ActionTypeHint.normalize_default", nd_setup, nd_post, nd_raises, expect_cover=("return", "raise:ValueError"),
+                trusted=["subclass_spec_as_namespace / normalize_import_path / get_import_path: their own units (C14)", "dataclass_to_dict / lazy_get_init_data return the stored form of the instance",
+                         "the classification helpers (is_enum_type, is_callable_type, is_subclass_typehint, is_return_subclass_typehint, is_dataclass_like) answer as the kind of type says (A4)"])
+
+
+UNITS += [typehint_instantiate_unit("C14"), normalize_default_unit("C14")]
